@@ -106,6 +106,9 @@ CacheSpec.vos CacheSpec.vok CacheSpec.required_vos: CacheSpec.v Base.vos Fields.
 CacheProofs.vo CacheProofs.glob CacheProofs.v.beautified CacheProofs.required_vo: CacheProofs.v Base.vo Fields.vo SrcFacts.vo Msg.vo SrcDecisions.vo Cache.vo CacheSpec.vo
 CacheProofs.vio: CacheProofs.v Base.vio Fields.vio SrcFacts.vio Msg.vio SrcDecisions.vio Cache.vio CacheSpec.vio
 CacheProofs.vos CacheProofs.vok CacheProofs.required_vos: CacheProofs.v Base.vos Fields.vos SrcFacts.vos Msg.vos SrcDecisions.vos Cache.vos CacheSpec.vos
+CacheAccept.vo CacheAccept.glob CacheAccept.v.beautified CacheAccept.required_vo: CacheAccept.v Base.vo Fields.vo SrcFacts.vo Msg.vo SrcDecisions.vo Cache.vo CacheSpec.vo CacheProofs.vo
+CacheAccept.vio: CacheAccept.v Base.vio Fields.vio SrcFacts.vio Msg.vio SrcDecisions.vio Cache.vio CacheSpec.vio CacheProofs.vio
+CacheAccept.vos CacheAccept.vok CacheAccept.required_vos: CacheAccept.v Base.vos Fields.vos SrcFacts.vos Msg.vos SrcDecisions.vos Cache.vos CacheSpec.vos CacheProofs.vos
 ResolverInv.vo ResolverInv.glob ResolverInv.v.beautified ResolverInv.required_vo: ResolverInv.v Base.vo Fields.vo SrcFacts.vo Msg.vo SrcDecisions.vo Cache.vo CacheSpec.vo CacheProofs.vo Sim.vo SimProofs.vo Prober.vo Resolver.vo ResolverProofs.vo
 ResolverInv.vio: ResolverInv.v Base.vio Fields.vio SrcFacts.vio Msg.vio SrcDecisions.vio Cache.vio CacheSpec.vio CacheProofs.vio Sim.vio SimProofs.vio Prober.vio Resolver.vio ResolverProofs.vio
 ResolverInv.vos ResolverInv.vok ResolverInv.required_vos: ResolverInv.v Base.vos Fields.vos SrcFacts.vos Msg.vos SrcDecisions.vos Cache.vos CacheSpec.vos CacheProofs.vos Sim.vos SimProofs.vos Prober.vos Resolver.vos ResolverProofs.vos
@@ -130,15 +133,15 @@ ProviderConverge.vos ProviderConverge.vok ProviderConverge.required_vos: Provide
 ProviderTarget.vo ProviderTarget.glob ProviderTarget.v.beautified ProviderTarget.required_vo: ProviderTarget.v Base.vo Fields.vo SrcFacts.vo Msg.vo SrcDecisions.vo Cache.vo CacheSpec.vo CacheProofs.vo Sim.vo SimProofs.vo Prober.vo Hostname.vo HostnameInv.vo Provider.vo ProviderProofs.vo ProviderListener.vo ProviderConverge.vo
 ProviderTarget.vio: ProviderTarget.v Base.vio Fields.vio SrcFacts.vio Msg.vio SrcDecisions.vio Cache.vio CacheSpec.vio CacheProofs.vio Sim.vio SimProofs.vio Prober.vio Hostname.vio HostnameInv.vio Provider.vio ProviderProofs.vio ProviderListener.vio ProviderConverge.vio
 ProviderTarget.vos ProviderTarget.vok ProviderTarget.required_vos: ProviderTarget.v Base.vos Fields.vos SrcFacts.vos Msg.vos SrcDecisions.vos Cache.vos CacheSpec.vos CacheProofs.vos Sim.vos SimProofs.vos Prober.vos Hostname.vos HostnameInv.vos Provider.vos ProviderProofs.vos ProviderListener.vos ProviderConverge.vos
-Properties_C05.vo Properties_C05.glob Properties_C05.v.beautified Properties_C05.required_vo: Properties_C05.v Base.vo Fields.vo SrcFacts.vo Msg.vo SrcDecisions.vo Cache.vo CacheSpec.vo CacheProofs.vo
-Properties_C05.vio: Properties_C05.v Base.vio Fields.vio SrcFacts.vio Msg.vio SrcDecisions.vio Cache.vio CacheSpec.vio CacheProofs.vio
-Properties_C05.vos Properties_C05.vok Properties_C05.required_vos: Properties_C05.v Base.vos Fields.vos SrcFacts.vos Msg.vos SrcDecisions.vos Cache.vos CacheSpec.vos CacheProofs.vos
-Properties_C06.vo Properties_C06.glob Properties_C06.v.beautified Properties_C06.required_vo: Properties_C06.v Base.vo Fields.vo SrcFacts.vo Msg.vo SrcDecisions.vo Cache.vo CacheSpec.vo CacheProofs.vo
-Properties_C06.vio: Properties_C06.v Base.vio Fields.vio SrcFacts.vio Msg.vio SrcDecisions.vio Cache.vio CacheSpec.vio CacheProofs.vio
-Properties_C06.vos Properties_C06.vok Properties_C06.required_vos: Properties_C06.v Base.vos Fields.vos SrcFacts.vos Msg.vos SrcDecisions.vos Cache.vos CacheSpec.vos CacheProofs.vos
-Properties_C18.vo Properties_C18.glob Properties_C18.v.beautified Properties_C18.required_vo: Properties_C18.v Base.vo Fields.vo SrcFacts.vo Msg.vo SrcDecisions.vo Cache.vo CacheSpec.vo CacheProofs.vo
-Properties_C18.vio: Properties_C18.v Base.vio Fields.vio SrcFacts.vio Msg.vio SrcDecisions.vio Cache.vio CacheSpec.vio CacheProofs.vio
-Properties_C18.vos Properties_C18.vok Properties_C18.required_vos: Properties_C18.v Base.vos Fields.vos SrcFacts.vos Msg.vos SrcDecisions.vos Cache.vos CacheSpec.vos CacheProofs.vos
+Properties_C05.vo Properties_C05.glob Properties_C05.v.beautified Properties_C05.required_vo: Properties_C05.v Base.vo Fields.vo SrcFacts.vo Msg.vo SrcDecisions.vo Cache.vo CacheSpec.vo CacheProofs.vo CacheAccept.vo
+Properties_C05.vio: Properties_C05.v Base.vio Fields.vio SrcFacts.vio Msg.vio SrcDecisions.vio Cache.vio CacheSpec.vio CacheProofs.vio CacheAccept.vio
+Properties_C05.vos Properties_C05.vok Properties_C05.required_vos: Properties_C05.v Base.vos Fields.vos SrcFacts.vos Msg.vos SrcDecisions.vos Cache.vos CacheSpec.vos CacheProofs.vos CacheAccept.vos
+Properties_C06.vo Properties_C06.glob Properties_C06.v.beautified Properties_C06.required_vo: Properties_C06.v Base.vo Fields.vo SrcFacts.vo Msg.vo SrcDecisions.vo Cache.vo CacheSpec.vo CacheProofs.vo CacheAccept.vo
+Properties_C06.vio: Properties_C06.v Base.vio Fields.vio SrcFacts.vio Msg.vio SrcDecisions.vio Cache.vio CacheSpec.vio CacheProofs.vio CacheAccept.vio
+Properties_C06.vos Properties_C06.vok Properties_C06.required_vos: Properties_C06.v Base.vos Fields.vos SrcFacts.vos Msg.vos SrcDecisions.vos Cache.vos CacheSpec.vos CacheProofs.vos CacheAccept.vos
+Properties_C18.vo Properties_C18.glob Properties_C18.v.beautified Properties_C18.required_vo: Properties_C18.v Base.vo Fields.vo SrcFacts.vo Msg.vo SrcDecisions.vo Cache.vo CacheSpec.vo CacheProofs.vo CacheAccept.vo
+Properties_C18.vio: Properties_C18.v Base.vio Fields.vio SrcFacts.vio Msg.vio SrcDecisions.vio Cache.vio CacheSpec.vio CacheProofs.vio CacheAccept.vio
+Properties_C18.vos Properties_C18.vok Properties_C18.required_vos: Properties_C18.v Base.vos Fields.vos SrcFacts.vos Msg.vos SrcDecisions.vos Cache.vos CacheSpec.vos CacheProofs.vos CacheAccept.vos
 Properties_C03.vo Properties_C03.glob Properties_C03.v.beautified Properties_C03.required_vo: Properties_C03.v Base.vo Fields.vo SrcFacts.vo Msg.vo Decoder.vo DecoderSafety.vo
 Properties_C03.vio: Properties_C03.v Base.vio Fields.vio SrcFacts.vio Msg.vio Decoder.vio DecoderSafety.vio
 Properties_C03.vos Properties_C03.vok Properties_C03.required_vos: Properties_C03.v Base.vos Fields.vos SrcFacts.vos Msg.vos Decoder.vos DecoderSafety.vos
